@@ -68,6 +68,13 @@ def decode(j):
     if "dt" in j: return _dtm.datetime.fromisoformat(j["dt"])
     if "date" in j: return _dtm.date.fromisoformat(j["date"])
     if "opaque" in j: return Opaque(j["opaque"])
+    if "np" in j:
+        v = decode(j["np"])
+        if isinstance(v, bool): return np.bool_(v)
+        if isinstance(v, int): return np.int64(v)
+        if isinstance(v, float): return np.float64(v)
+        return v
+    if "td" in j: return _dtm.timedelta(microseconds=j["td"])
     raise ValueError(f"decode: {j!r}")
 
 # ------------------------------------------------------------------ live -> JSON
@@ -90,12 +97,14 @@ def encode(x):
     if isinstance(x, np.bool_): return bool(x)
     if isinstance(x, (int, np.integer)): return int(x)
     if isinstance(x, (float, np.floating)): return {"f": hex_of_float(x)}
-    if isinstance(x, np.datetime64):
+    if isinstance(x, (np.datetime64, np.timedelta64)):
         unit = np.datetime_data(x.dtype)[0]
-        return {"M": int(x.astype(np.int64)) if not np.isnat(x) else INT64_MIN, "u": unit}
-    if isinstance(x, np.timedelta64):
-        unit = np.datetime_data(x.dtype)[0]
-        return {"m": int(x.astype(np.int64)) if not np.isnat(x) else INT64_MIN, "u": unit}
+        key = "M" if isinstance(x, np.datetime64) else "m"
+        if np.isnat(x): return {key: INT64_MIN, "u": "generic"}
+        t = int(x.astype(np.int64))
+        if unit in ("s", "ms") or (key == "m" and unit in ("D", "h", "m")):
+            t *= {"s": 10**6, "ms": 1000, "D": 86400 * 10**6, "h": 3600 * 10**6, "m": 60 * 10**6}[unit]; unit = "us"
+        return {key: t, "u": unit}
     if isinstance(x, np.ndarray):
         if x.ndim != 1:
             return {"a": "ndim%d" % x.ndim, "cls": type(x).__name__, "cells": []}
@@ -116,7 +125,9 @@ def encode(x):
     if isinstance(x, list): return {"l": [encode(v) for v in x]}
     if isinstance(x, tuple): return {"t": [encode(v) for v in x]}
     if isinstance(x, dict): return {"d": [[encode(k), encode(v)] for k, v in x.items()]}
-    if isinstance(x, _dtm.datetime): return {"dt": x.isoformat()}
-    if isinstance(x, _dtm.date): return {"date": x.isoformat()}
+    # canonical form shared with the symbolic side: Python date <-> unit D, datetime/timedelta <-> microseconds
+    if isinstance(x, _dtm.timedelta): return {"m": x // _dtm.timedelta(microseconds=1), "u": "us"}
+    if isinstance(x, _dtm.datetime): return {"M": (x - _dtm.datetime(1970, 1, 1)) // _dtm.timedelta(microseconds=1), "u": "us"}
+    if isinstance(x, _dtm.date): return {"M": (x - _dtm.date(1970, 1, 1)).days, "u": "D"}
     if isinstance(x, type): return {"type": x.__name__}
     raise ValueError(f"encode: unsupported {type(x).__name__}: {x!r}")
